@@ -239,6 +239,19 @@ def bundle_closed_through_convert():
                 direct = {c for c in re.findall(r"(?i)\brun\s+(\w+)", re.sub(r'"[^"]*"', '""', own)) if c in sig}
                 want = sorted(set().union(set(), *[reach(edges, d) for d in direct]) & set(sig)) + ["zz_main"]
                 res.append(ob("bundle/closure of the program's calls through convert()/%s,prefix=%d" % (name, prefix), heads == want and (bool(direct) or name == "no call" and not prefix or prefix), want, heads, src))
+        # a procedure name the tool does not accept falls back to `program`: the bundle is the one of that name, not an empty text
+        src = '10 PLAY "C":A$=STRING$(3,"x")\n20 PRINT "x RUN ecb_hline"\n'
+        ref = convert(src, output_dependencies=True, procname="program")
+        for name in ("a$", "my prog", "game.v2", "a.b", "", "x" * 40, "-", "3d", "P_1"):
+            try:
+                out = convert(src, output_dependencies=True, procname=name)
+            except Exception as e:  # noqa
+                out = "%s: %s" % (type(e).__name__, str(e)[:80])
+            heads = re.findall(r"(?mi)^procedure ([\w-]+)", out)
+            root = heads[-1] if heads else None
+            same = out.replace("procedure %s" % root, "procedure program") == ref if root else False
+            res.append(ob("bundle/procedure name %r: the same bundle under the accepted name or under `program`" % name, same and root in (name, "program"), "the bundle of `program` with the root header renamed at most",
+                          dict(root=root, headers=len(heads), length=len(out)) if not same else "same", src))
         return res
     return guarded("bundle/closed", run)
 
